@@ -106,6 +106,18 @@ def post_plan(seed, tier, jobs, results):
                 "timeout": 900,
             }
         )
+    # cache dicts that outlive their operands, in an interpreter WITHOUT the seeded hash hook:
+    # there funsors hash by address, so a cache that does not keep its keys alive is answered
+    # by whatever is allocated at a recycled address
+    for m in range(4 if tier == "quick" else 24):
+        out.append(
+            {
+                "world": worlds[m % nworlds],
+                "fn": "memo_native_hash",
+                "payload": {"seed": "%s/c03/native%d" % (seed, m), "blocks": 120 if tier == "quick" else 400},
+                "timeout": 600,
+            }
+        )
     return out
 
 
@@ -603,6 +615,86 @@ def _run_memo_history(hist):
     return {"calls": mon.calls, "hits": mon.hits, "violations": (violations + mon.violations)[:1], "events": events}
 
 
+def memo_native_hash(payload):
+    """Runs native_memo_main in a new interpreter whose funsor uses the native (address
+    based) hashes: the seeded hash hook would make every hash unique for ever and so hide
+    caches that rely on their keys staying alive."""
+    import os
+    import subprocess
+    import sys
+
+    env = {k: v for k, v in os.environ.items() if not k.startswith("FUNSOR_VERIF")}
+    p = subprocess.run(
+        [sys.executable, "-c", "from checks import c03; c03.native_memo_main()"],
+        input=json.dumps(payload),
+        capture_output=True,
+        text=True,
+        env=env,
+        cwd=W.VERIF_DIR,
+        timeout=500,
+    )
+    line = [l for l in p.stdout.splitlines() if l.startswith("RESULT ")]
+    if p.returncode != 0 or not line:
+        raise RuntimeError("native-hash interpreter failed: " + (p.stderr or p.stdout)[-1500:])
+    return json.loads(line[-1][7:])
+
+
+def native_memo_main():
+    import sys
+
+    import numpy as np
+
+    import funsor
+
+    funsor.set_backend("numpy")
+    from collections import OrderedDict
+
+    from funsor import ops
+    from funsor.interpretations import memoize
+
+    payload = json.loads(sys.stdin.read())
+    r = W.rng(payload["seed"])
+    caches = [{}, {}]
+    stats = {"runs": 1, "memo_blocks": 0, "memo_value_comparisons": 0, "nontrivial": 1, "hook_active": bool(getattr(getattr(funsor, "_verif", None), "ENABLED", False))}
+    violation = None
+    for blk in range(payload["blocks"]):
+        # operands are built OUTSIDE the block and die with this iteration
+        shape = (2, 3)
+        x = funsor.Tensor(np.full(shape, 1.0 + blk) + np.arange(6.0).reshape(shape) * 0.01, OrderedDict(i=funsor.Bint[2], j=funsor.Bint[3]))
+        y = funsor.Tensor(np.full((3,), 0.5 * (blk % 7) + 0.25), OrderedDict(j=funsor.Bint[3]))
+        exprs = [
+            ("x.reduce(add,'i')", lambda: x.reduce(ops.add, "i")),
+            ("x*2", lambda: x * 2.0),
+            ("(x*y).reduce(add,'j')", lambda: (x * y).reduce(ops.add, "j")),
+            ("x+y", lambda: x + y),
+            ("x.exp()", lambda: x.exp()),
+            ("x(i=1)", lambda: x(i=1)),
+        ]
+        chosen = r.sample(exprs, r.randint(2, len(exprs)))
+        cache = caches[blk % 2] if r.random() < 0.8 else caches[0]
+        with memoize(cache):
+            got = [(name, fn()) for name, fn in chosen]
+        stats["memo_blocks"] += 1
+        for (name, g), (_, fn) in zip(got, chosen):
+            want = fn()
+            stats["memo_value_comparisons"] += 1
+            same_inputs = set(g.inputs) == set(want.inputs)
+            if same_inputs and want.inputs:
+                want = want.align(tuple(g.inputs))
+            if not same_inputs or not np.allclose(np.asarray(g.data), np.asarray(want.data)):
+                violation = {
+                    "invariant": "memo-wrong-arguments",
+                    "message": "block %d of a history that re-uses one cache dict across memoize blocks: memoized %s is %s, evaluated directly it is %s (the cached result was computed for operands that no longer exist)"
+                    % (blk, name, np.asarray(g.data).ravel()[:4].tolist(), np.asarray(want.data).ravel()[:4].tolist()),
+                    "fingerprint": "memo-wrong-arguments",
+                }
+                break
+        del x, y, got, chosen, exprs
+        if violation:
+            break
+    print("RESULT " + json.dumps({"violations": [violation] if violation else [], "stats": stats, "sample": None}))
+
+
 ###############################################################################
 # runner side
 
@@ -615,7 +707,7 @@ def summarize(jobs, results, tier):
     programs = 0
     hist_runs = 0
     for job, res in zip(jobs, results):
-        if job["fn"] not in ("run_schedules", "memo_histories") or not res or res.get("status") != "ok":
+        if job["fn"] not in ("run_schedules", "memo_histories", "memo_native_hash") or not res or res.get("status") != "ok":
             continue
         st = res["res"]["stats"]
         for k in tot:
@@ -648,6 +740,8 @@ def summarize(jobs, results, tier):
         "free_input_checks": tot["input_checks"],
         "memoize_interpret_calls_checked": tot["memo_calls"],
         "memoize_hits_checked_identical": tot["memo_hits"],
+        "native_hash_memo_blocks": sum(r["res"]["stats"].get("memo_blocks", 0) for j, r in zip(jobs, results) if j["fn"] == "memo_native_hash" and r and r.get("status") == "ok"),
+        "native_hash_memo_value_comparisons": sum(r["res"]["stats"].get("memo_value_comparisons", 0) for j, r in zip(jobs, results) if j["fn"] == "memo_native_hash" and r and r.get("status") == "ok"),
         "faults_fired_by_kind": dict(faults, **{"history:" + k: v for k, v in events.items()}),
         "components": {
             "real": ["funsor (working tree)", "numpy", "multipledispatch"],
